@@ -91,6 +91,8 @@ pub struct PFile {
     pub number: u64,
     pub name: String,
     pub segs: Vec<Seg>,
+    /// store the file in a sibling directory and put an absolute symlink into the data directory
+    pub linked: bool,
 }
 
 #[derive(Clone, Debug, Default)]
@@ -103,6 +105,8 @@ pub struct Plan {
     /// extra files created BEFORE the blk files (directory enumeration order differs)
     pub pre_files: Vec<(String, Vec<u8>)>,
     pub extra_dirs: Vec<String>,
+    /// symlinks to create in the data directory: (name, target as written)
+    pub links: Vec<(String, String)>,
     pub ldb_small_buffer: bool,
     pub ldb_reopens: u8,
     pub ldb_compact: bool,
@@ -154,7 +158,15 @@ impl Plan {
             std::fs::write(dir.join(n), c).map_err(|e| e.to_string())?;
         }
         for f in &self.files {
-            let path = dir.join(&f.name);
+            let path = if f.linked {
+                let store = dir.parent().unwrap_or(dir).join("linked-blk-store");
+                std::fs::create_dir_all(&store).map_err(|e| e.to_string())?;
+                let abs = std::fs::canonicalize(&store).map_err(|e| e.to_string())?.join(&f.name);
+                std::os::unix::fs::symlink(&abs, dir.join(&f.name)).map_err(|e| e.to_string())?;
+                abs
+            } else {
+                dir.join(&f.name)
+            };
             let file = std::fs::File::create(&path).map_err(|e| format!("create {}: {}", path.display(), e))?;
             let mut w = XorWriter { w: std::io::BufWriter::with_capacity(1 << 16, file), key: self.xor.clone(), pos: 0, buf: Vec::new() };
             let mut end_with_hole = false;
@@ -189,6 +201,9 @@ impl Plan {
         }
         for (n, c) in &self.extra_files {
             std::fs::write(dir.join(n), c).map_err(|e| e.to_string())?;
+        }
+        for (n, target) in &self.links {
+            let _ = std::os::unix::fs::symlink(target, dir.join(n));
         }
         for d in &self.extra_dirs {
             std::fs::create_dir_all(dir.join(d)).map_err(|e| e.to_string())?;
@@ -257,7 +272,7 @@ pub fn canonical_plan(coin: Coin, blocks: &[(u64, crate::chain::Block)]) -> Plan
         plan.recs.push(rec_for(b, *h, VALID_SCRIPTS | HAVE_DATA | HAVE_UNDO));
         segs.push(Seg::Blk { bytes: b.ser(), rec: Some(i), magic: coin.magic() });
     }
-    plan.files.push(PFile { number: 0, name: blk_name(0, 5), segs });
+    plan.files.push(PFile { number: 0, name: blk_name(0, 5), segs, linked: false });
     plan
 }
 
